@@ -33,6 +33,20 @@ def main(argv):
     if argv[0] == "selftest":
         import selftest
         return selftest.main(argv[1:])
+    if argv[0] == "guards":
+        import dag
+        fx, cached, secs = F.load(os.environ.get("RM_CONFIG", "lib"))
+        for f in fx.fns:
+            if argv[1] in f["key"]:
+                b = mir.Body(f); d = dag.Dag(b)
+                print(f["key"])
+                for blk in sorted(b.reachable):
+                    c = dag.cmp_of_switch(b, d, blk)
+                    if c: print(f"   bb{blk}: {dag.show(c[1])} {c[0]} {dag.show(c[2])}   T->bb{c[3]} F->bb{c[4]}   {b.loc(blk)}")
+                    t = b.term(blk)
+                    if t[0] == "Call" and (t[1].get("f") or "").startswith("std::sync::atomic::Atomic::"):
+                        print(f"   bb{blk}: {dag.show(d.rvalue((blk,'T',['CallRes',t[1]]),0))}   {b.loc(blk)}")
+        return 0
     if argv[0] == "ts":
         return cmd_ts(argv[1:])
     import runner
